@@ -2,8 +2,8 @@ package prioh
 
 import (
 	"bufio"
-	"errors"
 	"encoding/json"
+	"errors"
 	"fmt"
 	"os"
 	"strconv"
@@ -63,34 +63,34 @@ type pathResult struct {
 
 // v2run drives one real v2 discipline inside a synctest bubble, gated at every hook.
 type v2run struct {
-	cfg      Config
-	d        *priority.Discipline[int]
-	ins      map[uint]chan int
-	closedIn map[uint]bool
-	nextItem map[uint]int
-	recvCount map[uint]int
-	held     []uint
-	evCh     chan priority.VerifEvent
-	gate     chan struct{}
-	free     atomic.Bool
-	freeCh   chan struct{}
-	log      []any
-	logSched bool // also log scheduler events (S records) for Trace_PrioV2
-	stop     chan struct{} // releases parked writers of unbuffered inputs at the end
-	parked   map[uint]*atomic.Bool
-	divCalls int
-	faultAt  int
-	faultKind string
-	faulted  bool
-	atGate bool
-	faultBad bool
-	sawErrBad bool
-	last     priority.VerifEvent
-	exited   atomic.Bool
+	cfg           Config
+	d             *priority.Discipline[int]
+	ins           map[uint]chan int
+	closedIn      map[uint]bool
+	nextItem      map[uint]int
+	recvCount     map[uint]int
+	held          []uint
+	evCh          chan priority.VerifEvent
+	gate          chan struct{}
+	free          atomic.Bool
+	freeCh        chan struct{}
+	log           []any
+	logSched      bool          // also log scheduler events (S records) for Trace_PrioV2
+	stop          chan struct{} // releases parked writers of unbuffered inputs at the end
+	parked        map[uint]*atomic.Bool
+	divCalls      int
+	faultAt       int
+	faultKind     string
+	faulted       bool
+	atGate        bool
+	faultBad      bool
+	sawErrBad     bool
+	last          priority.VerifEvent
+	exited        atomic.Bool
 	sendsAfterBad atomic.Int32
-	badSeen  atomic.Bool
-	relPanic atomic.Bool
-	rounds   atomic.Int64
+	badSeen       atomic.Bool
+	relPanic      atomic.Bool
+	rounds        atomic.Int64
 }
 
 func (r *v2run) emit(o any) { r.log = append(r.log, o) }
@@ -512,10 +512,7 @@ func (r *v2run) finish() {
 				}
 				return
 			}
-			note := "nil"
-			if err != nil {
-				note = err.Error()
-			}
+			note := errNote(err)
 			if errors.Is(err, priority.ErrDividerBad) {
 				r.sawErrBad = true
 			}
